@@ -32,6 +32,7 @@ EXPLANATION = (
     "(lru_cache / cache keep objects for the whole process; cached_property is per instance); R4.6 = C01's R1.4 and C03's R3.4 "
     "(reset re-seeds when a seed is given - `is not None`, not truthiness - and rebuilds the game exactly once on every path) "
     "applied here. R4.7 the numeric settings this property depends on are never tested by truthiness (`x or default`, `if x:`) - 0 is a legal value for them. "
+    "R4.8 no function returns a module-level mutable object or an element of a module-level container of objects (sentinels and constant tables excepted): such a result is shared by every episode and environment. "
     "NOT decided: equality of "
     "trajectories after a dirty history (behavioural) and leaks through third-party global state."
 )
@@ -429,7 +430,109 @@ def r4_6(ctx: Ctx) -> None:
         c03.r3_4(ctx)
 
 
+def r4_8(ctx: Ctx) -> None:
+    """A module-level object lives as long as the process.  A function that *returns* one (or an element of a module-level container)
+    hands every caller - every episode, every environment - the same object: the first caller that writes to it (`response.data = ...`)
+    changes what all later callers get.  Immutable results are fine: sentinels `object()`, and look-ups in a table whose values are
+    all constants."""
+    ix = ctx.ix
+    ctx.rule("R4.8", "no function returns a module-level mutable object or an element of a module-level container of objects")
+    n_mod = n_ret = 0
+
+    def _const_table(v: ast.AST) -> bool:
+        if isinstance(v, ast.Dict):
+            return all(isinstance(x, ast.Constant) for x in v.values)
+        if isinstance(v, ast.Call) and unparse(v.func) == "dict" and not v.args:
+            return all(isinstance(k.value, ast.Constant) for k in v.keywords)
+        if isinstance(v, (ast.List, ast.Set, ast.Tuple)):
+            return all(isinstance(x, ast.Constant) for x in v.elts)
+        return False
+
+    # attribute names that some site writes through a receiver other than self/cls (`response.data = ...`, `x.items.append(..)`)
+    foreign: Dict[str, str] = {}
+    for path, mi in sorted(ix.by_path.items()):
+        if not path.startswith("src/primaite/"):
+            continue
+        for x in ast.walk(mi.tree):
+            tg = []
+            if isinstance(x, (ast.Assign, ast.AugAssign, ast.AnnAssign)):
+                tg = list(x.targets) if isinstance(x, ast.Assign) else [x.target]
+            elif isinstance(x, ast.Call) and isinstance(x.func, ast.Attribute) and x.func.attr in MUTATING_METHODS:
+                tg = [x.func.value]
+            for t in tg:
+                while isinstance(t, ast.Subscript):
+                    t = t.value
+                if isinstance(t, ast.Attribute) and not (isinstance(t.value, ast.Name) and t.value.id in ("self", "cls")):
+                    foreign.setdefault(t.attr, f"{path}:{x.lineno}")
+
+    def _written_fields(v: ast.AST, mi) -> Optional[List[str]]:
+        """fields of the object(s) `v` builds that some site writes from outside; None = not an instance of an indexed class"""
+        calls = [v] if isinstance(v, ast.Call) else [e for e in (v.values if isinstance(v, ast.Dict) else getattr(v, "elts", []))]
+        out: List[str] = []
+        for c in calls:
+            k = ix._resolve_expr_to_class(c.func, mi, None) if isinstance(c, ast.Call) else None
+            if k is None:
+                return None
+            for kk in ix.mro(k) if hasattr(ix, "mro") else [k]:
+                out += [f"{f} (written at {foreign[f]})" for f in kk.fields if f in foreign]
+        return out
+
+    for path, mi in sorted(ix.by_path.items()):
+        if not path.startswith("src/primaite/"):
+            continue
+        mut: Dict[str, ast.AST] = {}
+        for st in mi.tree.body:
+            tg, v = None, None
+            if isinstance(st, ast.Assign) and len(st.targets) == 1 and isinstance(st.targets[0], ast.Name):
+                tg, v = st.targets[0].id, st.value
+            elif isinstance(st, ast.AnnAssign) and isinstance(st.target, ast.Name) and st.value is not None:
+                tg, v = st.target.id, st.value
+            if tg and isinstance(v, (ast.Dict, ast.List, ast.Set, ast.Call, ast.DictComp, ast.ListComp, ast.SetComp)):
+                mut[tg] = v
+        if not mut:
+            continue
+        n_mod += 1
+        for fnode in ast.walk(mi.tree):
+            if not isinstance(fnode, (ast.FunctionDef, ast.AsyncFunctionDef)):
+                continue
+            local = {x.id for x in ast.walk(fnode) if isinstance(x, ast.Name) and isinstance(x.ctx, ast.Store)} | {
+                a.arg for a in fnode.args.args + fnode.args.kwonlyargs + fnode.args.posonlyargs}
+            for r in ast.walk(fnode):
+                if not (isinstance(r, ast.Return) and r.value is not None):
+                    continue
+                b, element = r.value, False
+                while True:
+                    if isinstance(b, ast.Subscript):
+                        b, element = b.value, True
+                    elif isinstance(b, ast.Call) and isinstance(b.func, ast.Attribute) and b.func.attr in ("get", "setdefault", "pop"):
+                        b, element = b.func.value, True
+                    else:
+                        break
+                if not (isinstance(b, ast.Name) and b.id in mut and b.id not in local):
+                    continue
+                n_ret += 1
+                v = mut[b.id]
+                if isinstance(v, ast.Call) and unparse(v) == "object()":
+                    ok, why = True, f"`{b.id}` is an attribute-less sentinel (object())"
+                elif element and _const_table(v):
+                    ok, why = True, f"look-up in the constant table `{b.id}`: the result is an immutable constant"
+                elif isinstance(v, ast.Call) and unparse(v.func).split(".")[-1] == "getLogger":
+                    ok, why = True, f"`{b.id}` is a logger"
+                elif (element or isinstance(v, ast.Call)) and _written_fields(v, mi) == []:
+                    ok, why = True, (f"`{b.id}` holds instance(s) of an indexed class none of whose fields is written through a foreign receiver "
+                                     "anywhere in the package: shared but never changed")
+                else:
+                    ok, why = False, (f"`{unparse(r.value)[:60]}` hands out {'an element of ' if element else ''}the module-level object `{b.id}` "
+                                      f"(= {unparse(v)[:50]}): every caller in the process - every episode and every environment - shares it, so a "
+                                      "caller that writes to it changes what all later callers receive" + (
+                                          f"; written from outside: {_written_fields(v, mi)[:3]}" if _written_fields(v, mi) else ""))
+                ctx.record("R4.8", f"{path}::{fnode.name}::returns {b.id}{' element' if element else ''}", f"{path}:{r.lineno}", ok, why)
+    ctx.floor("R4.8", "modules with module-level objects", n_mod, 10)
+    ctx.floor("R4.8", "returns that mention a module-level object", n_ret, 2)
+
+
 def check(ctx: Ctx) -> None:
+    r4_8(ctx)
     r4_1(ctx)
     r4_2(ctx)
     r4_3(ctx)
